@@ -653,7 +653,8 @@ func (g *Gen) elemKey(t types.Type) (key, srt string) {
 func refKeyName(t types.Type, es string) string {
 	switch t.Underlying().(type) {
 	case *types.Pointer, *types.Map, *types.Chan:
-		return "Ref"
+		// one key per pointer type: Go's type system keeps []*A and []*B (and *A, *B cells) apart
+		return "Ref_" + sanitize(types.TypeString(types.Unalias(t), func(p *types.Package) string { return p.Name() }))
 	}
 	return es
 }
